@@ -1,6 +1,7 @@
 //! cost probes (not part of any claim)
 use crate::util::*;
 use clvmr::allocator::{Allocator, NodePtr};
+use clvmr::chia_dialect::ClvmFlags;
 
 proof! {
     #[kani::unwind(8)]
@@ -108,3 +109,557 @@ proof! {
         std::mem::forget(p);
     }
 }
+
+use crate::c12::{Pre, pre_with, inv, contents_unchanged};
+proof! {
+    #[kani::unwind(8)]
+    fn probe_p11_pair_concrete_view() {
+        let mut p = pre_with(Some((1,4)), None, true);
+        let r = p.a.new_pair(p.heap, p.small);
+        kani::cover!(r.is_err());
+        inv(&p);
+        contents_unchanged(&p);
+        std::mem::forget(p);
+    }
+}
+proof! {
+    #[kani::unwind(8)]
+    fn probe_p12_pair_no_contents() {
+        let mut p = pre_with(None, None, true);
+        let r = p.a.new_pair(p.heap, p.small);
+        kani::cover!(r.is_err());
+        inv(&p);
+        std::mem::forget(p);
+    }
+}
+proof! {
+    #[kani::unwind(8)]
+    fn probe_p13_pair_concrete_limit() {
+        let mut p = pre_with(None, Some(1000), true);
+        let r = p.a.new_pair(p.heap, p.small);
+        kani::cover!(r.is_err());
+        inv(&p);
+        contents_unchanged(&p);
+        std::mem::forget(p);
+    }
+}
+proof! {
+    #[kani::unwind(8)]
+    fn probe_p14_pair_no_ghost() {
+        let mut p = pre_with(None, None, false);
+        let r = p.a.new_pair(p.heap, p.small);
+        inv(&p);
+        contents_unchanged(&p);
+        std::mem::forget(p);
+    }
+}
+
+// ---- micro-variants to locate the cost of new_atom
+fn na_variant(sym_len: bool, ghosts: bool, check_bytes: bool, check_pre: bool) {
+    let mut p = pre_with(Some((1, 4)), Some(1000), ghosts);
+    let b: [u8; 5] = kani::any();
+    let len: usize = if sym_len { kani::any() } else { 5 };
+    kani::assume(len <= 5);
+    let r = match len {
+        0 => p.a.new_atom(&[]),
+        1 => p.a.new_atom(&b[..1]),
+        2 => p.a.new_atom(&b[..2]),
+        3 => p.a.new_atom(&b[..3]),
+        4 => p.a.new_atom(&b[..4]),
+        _ => p.a.new_atom(&b[..5]),
+    };
+    if let Ok(n) = r {
+        assert!(p.a.atom_len(n) == len);
+        if check_bytes {
+            let at = p.a.atom(n);
+            let s = at.as_ref();
+            let mut i = 0;
+            while i < len {
+                assert!(s[i] == b[i]);
+                i += 1;
+            }
+        }
+    }
+    if check_pre { contents_unchanged(&p); }
+    std::mem::forget(p);
+}
+proof! { #[kani::unwind(8)] fn probe_na_fixed5() { na_variant(false, false, false, false); } }
+proof! { #[kani::unwind(8)] fn probe_na_fixed5_bytes() { na_variant(false, false, true, false); } }
+proof! { #[kani::unwind(8)] fn probe_na_symlen() { na_variant(true, false, false, false); } }
+proof! { #[kani::unwind(8)] fn probe_na_symlen_bytes() { na_variant(true, false, true, false); } }
+proof! { #[kani::unwind(8)] fn probe_na_symlen_pre() { na_variant(true, false, false, true); } }
+proof! { #[kani::unwind(8)] fn probe_na_symlen_ghosts() { na_variant(true, true, false, false); } }
+
+// ---- micro-variants: new_substr on the heap parent from the symbolic-limit pre-state
+fn ss_variant(lim: Option<usize>, ghosts: bool, level: u8) {
+    let mut p = pre_with(Some((1, 4)), lim, ghosts);
+    let s: u32 = kani::any();
+    let e: u32 = kani::any();
+    let before = p.a.atom_count();
+    let r = p.a.new_substr(p.heap, s, e);
+    if level >= 1 {
+        match &r {
+            Ok(n) => {
+                assert!(s <= e && e <= 6);
+                if level >= 2 { assert!(p.a.atom_len(*n) == (e - s) as usize); }
+                if level >= 3 { assert!(p.a.atom_count() == before + 1); }
+            }
+            Err(_) => { if level >= 3 { assert!(p.a.atom_count() == before); } }
+        }
+    }
+    if level >= 4 { std::mem::forget(r); }
+    std::mem::forget(p);
+}
+proof! { #[kani::unwind(8)] fn probe_ss_sym_l0() { ss_variant(None, true, 0); } }
+proof! { #[kani::unwind(8)] fn probe_ss_sym_l1() { ss_variant(None, true, 1); } }
+proof! { #[kani::unwind(8)] fn probe_ss_sym_l3() { ss_variant(None, true, 3); } }
+proof! { #[kani::unwind(8)] fn probe_ss_sym_l4() { ss_variant(None, true, 4); } }
+proof! { #[kani::unwind(8)] fn probe_ss_conc_l3() { ss_variant(Some(1000), true, 3); } }
+proof! { #[kani::unwind(8)] fn probe_ss_sym_noghost_l3() { ss_variant(None, false, 3); } }
+
+proof! {
+    #[kani::unwind(8)]
+    fn probe_nts_nil() {
+        let a = Allocator::new();
+        let mut full: FixedBuf<20> = FixedBuf::new();
+        let r0 = clvmr::serde::verif_hooks::node_to_stream(&a, a.nil(), &mut full);
+        assert!(r0.is_ok());
+        assert!(full.len == 1);
+        std::mem::forget(a);
+    }
+}
+proof! {
+    #[kani::unwind(8)]
+    fn probe_nts_pair() {
+        let mut a = Allocator::new();
+        let t = a.new_pair(a.one(), a.nil()).unwrap();
+        let mut full: FixedBuf<20> = FixedBuf::new();
+        let r0 = clvmr::serde::verif_hooks::node_to_stream(&a, t, &mut full);
+        assert!(r0.is_ok());
+        assert!(full.len == 3);
+        std::mem::forget(a);
+    }
+}
+
+kernel_proof! {
+    #[kani::unwind(8)]
+    fn probe_ioerr_kind() {
+        let e: std::io::Error = std::io::ErrorKind::OutOfMemory.into();
+        assert!(e.kind() == std::io::ErrorKind::OutOfMemory);
+    }
+}
+kernel_proof! {
+    #[kani::unwind(8)]
+    fn probe_limited_write_all_fail() {
+        use std::io::Write;
+        let mut w = clvmr::serde::verif_hooks::LimitedWriter::new(FixedBuf::<8>::new(), 0);
+        let r = w.write_all(&[0xff]);
+        assert!(r.is_err());
+    }
+}
+kernel_proof! {
+    #[kani::unwind(8)]
+    fn probe_limited_write_all_ok() {
+        use std::io::Write;
+        let mut w = clvmr::serde::verif_hooks::LimitedWriter::new(FixedBuf::<8>::new(), 4);
+        let r = w.write_all(&[0xff, 1]);
+        assert!(r.is_ok());
+        let r = w.write_all(&[0xff, 1, 3]);
+        assert!(r.is_err());
+    }
+}
+
+kernel_proof! {
+    #[kani::unwind(8)]
+    fn probe_vec_grow() {
+        let mut v: Vec<NodePtr> = vec![NodePtr::NIL];
+        let x = v.pop().unwrap();
+        v.push(x);
+        v.push(x);
+        assert!(v.len() == 2);
+        let y = v.pop();
+        assert!(y.is_some());
+        std::mem::forget(v);
+    }
+}
+kernel_proof! {
+    #[kani::unwind(8)]
+    fn probe_vec_grow_u64() {
+        let mut v: Vec<u64> = vec![1];
+        v.push(2);
+        v.push(3);
+        assert!(v.len() == 3);
+        std::mem::forget(v);
+    }
+}
+
+proof! {
+    #[kani::unwind(8)]
+    fn probe_nts_one() {
+        let a = Allocator::new();
+        let mut full: FixedBuf<20> = FixedBuf::new();
+        let r0 = clvmr::serde::verif_hooks::node_to_stream(&a, a.one(), &mut full);
+        assert!(r0.is_ok());
+        assert!(full.len == 1);
+        std::mem::forget(a);
+    }
+}
+proof! {
+    #[kani::unwind(8)]
+    fn probe_nts_pair_nil() {
+        let mut a = Allocator::new();
+        let t = a.new_pair(a.nil(), a.nil()).unwrap();
+        let mut full: FixedBuf<20> = FixedBuf::new();
+        let r0 = clvmr::serde::verif_hooks::node_to_stream(&a, t, &mut full);
+        assert!(r0.is_ok());
+        assert!(full.len == 3);
+        std::mem::forget(a);
+    }
+}
+proof! {
+    #[kani::unwind(3)]
+    fn probe_nts_pair_nil_u3() {
+        let mut a = Allocator::new();
+        let t = a.new_pair(a.nil(), a.nil()).unwrap();
+        let mut full: FixedBuf<20> = FixedBuf::new();
+        let r0 = clvmr::serde::verif_hooks::node_to_stream(&a, t, &mut full);
+        assert!(r0.is_ok());
+        assert!(full.len == 3);
+        std::mem::forget(a);
+    }
+}
+
+kernel_proof! {
+    #[kani::unwind(8)]
+    fn probe_vec_grow2() {
+        let mut v: Vec<u32> = vec![7];
+        let x = v.pop().unwrap();
+        v.push(11);
+        v.push(13);
+        let c = v.pop().unwrap();
+        let b = v.pop().unwrap();
+        // if b is not a constant for symex, this loop cannot be unwound concretely
+        let mut i = 0u32;
+        while i < b { i += 1; }
+        assert!(i == 11 && c == 13 && x == 7);
+        std::mem::forget(v);
+    }
+}
+
+proof! {
+    #[kani::unwind(8)]
+    fn probe_vec_grow3() {
+        let mut a = Allocator::new();
+        let t = a.new_pair(a.nil(), a.nil()).unwrap();
+        let mut values: Vec<NodePtr> = vec![t];
+        let mut n = 0;
+        while let Some(v) = values.pop() {
+            n += 1;
+            match a.sexp(v) {
+                clvmr::allocator::SExp::Pair(l, r) => { values.push(r); values.push(l); }
+                clvmr::allocator::SExp::Atom => {}
+            }
+        }
+        assert!(n == 3);
+        std::mem::forget(a);
+    }
+}
+
+fn spin(n: u32) { let mut i = 0u32; while i < n { i += 1; } }
+proof! {
+    #[kani::unwind(6)]
+    fn probe_conc_pair_read() {
+        let mut a = Allocator::new();
+        let three = a.new_small_number(3).unwrap();
+        let t = a.new_pair(a.one(), three).unwrap();
+        match a.sexp(t) {
+            clvmr::allocator::SExp::Pair(l, r) => { spin(a.small_number(r).unwrap()); }
+            clvmr::allocator::SExp::Atom => {}
+        }
+        std::mem::forget(a);
+    }
+}
+proof! {
+    #[kani::unwind(6)]
+    fn probe_conc_pair_vec() {
+        let mut a = Allocator::new();
+        let three = a.new_small_number(3).unwrap();
+        let t = a.new_pair(a.one(), three).unwrap();
+        let mut values: Vec<NodePtr> = vec![t];
+        let v = values.pop().unwrap();
+        if let clvmr::allocator::SExp::Pair(l, r) = a.sexp(v) { values.push(r); values.push(l); }
+        let l = values.pop().unwrap();
+        let r = values.pop().unwrap();
+        spin(a.small_number(r).unwrap());
+        spin(values.len() as u32);
+        std::mem::forget(a);
+    }
+}
+
+kernel_proof! {
+    #[kani::unwind(6)]
+    fn probe_vec_loop_plain() {
+        let mut values: Vec<u32> = vec![5];
+        let mut n = 0;
+        while let Some(v) = values.pop() {
+            n += 1;
+            if v > 3 { values.push(v - 3); values.push(v - 4); }
+        }
+        assert!(n == 3);
+        std::mem::forget(values);
+    }
+}
+kernel_proof! {
+    #[kani::unwind(6)]
+    fn probe_vec_loop_plain_drop() {
+        let mut values: Vec<u32> = vec![5];
+        let mut n = 0;
+        while let Some(v) = values.pop() {
+            n += 1;
+            if v > 3 { values.push(v - 3); values.push(v - 4); }
+        }
+        assert!(n == 3);
+    }
+}
+
+fn vg(loop_kind: u8, use_sexp: bool) {
+    let mut a = Allocator::new();
+    let three = a.new_small_number(3).unwrap();
+    let t = a.new_pair(a.one(), three).unwrap();
+    let mut values: Vec<NodePtr> = vec![t];
+    let mut n = 0;
+    if loop_kind == 0 {
+        while let Some(v) = values.pop() {
+            n += 1;
+            let is_pair = if use_sexp { matches!(a.sexp(v), clvmr::allocator::SExp::Pair(_, _)) } else { v.is_pair() };
+            if is_pair {
+                if let clvmr::allocator::SExp::Pair(l, r) = a.sexp(v) { values.push(r); values.push(l); }
+            }
+        }
+    } else {
+        let mut k = 0;
+        while k < 4 {
+            k += 1;
+            let Some(v) = values.pop() else { break; };
+            n += 1;
+            if v.is_pair() {
+                if let clvmr::allocator::SExp::Pair(l, r) = a.sexp(v) { values.push(r); values.push(l); }
+            }
+        }
+    }
+    assert!(n == 3);
+    std::mem::forget(a);
+}
+proof! { #[kani::unwind(6)] fn probe_vg_while_sexp() { vg(0, true); } }
+proof! { #[kani::unwind(6)] fn probe_vg_while_ispair() { vg(0, false); } }
+proof! { #[kani::unwind(6)] fn probe_vg_counted() { vg(1, false); } }
+
+proof! {
+    #[kani::unwind(6)]
+    fn probe_vg_diag() {
+        let mut a = Allocator::new();
+        let three = a.new_small_number(3).unwrap();
+        let t = a.new_pair(a.one(), three).unwrap();
+        let mut values: Vec<NodePtr> = vec![t];
+        let mut k = 0;
+        while k < 3 {
+            k += 1;
+            let Some(v) = values.pop() else { break; };
+            spin(values.len() as u32);          // A: len after pop
+            spin(if v.is_pair() == (k == 1) { 1 } else { 100 }); // B: is_pair concrete?
+            if v.is_pair() {
+                if let clvmr::allocator::SExp::Pair(l, r) = a.sexp(v) { values.push(r); values.push(l); }
+            }
+            spin(values.len() as u32);          // C: len after pushes
+        }
+        std::mem::forget(a);
+    }
+}
+
+kernel_proof! {
+    #[kani::unwind(6)]
+    fn probe_vec_fresh_after_grow() {
+        let mut values: Vec<u32> = vec![9];
+        values.push(100);      // grows 1 -> 4
+        let l = values.pop().unwrap();
+        spin(if l == 100 { 1 } else { 50 });
+        std::mem::forget(values);
+    }
+}
+kernel_proof! {
+    #[kani::unwind(6)]
+    fn probe_vec_fresh_after_grow_loop() {
+        let mut values: Vec<u32> = vec![9];
+        let mut k = 0;
+        while k < 2 {
+            k += 1;
+            let v = values.pop().unwrap();
+            spin(if (v == 9) == (k == 1) { 1 } else { 50 });
+            if k == 1 { values.push(7); values.push(100); }
+        }
+        std::mem::forget(values);
+    }
+}
+
+fn vgd(variant: u8) {
+    let mut a = Allocator::new();
+    let three = a.new_small_number(3).unwrap();
+    let one = a.one();
+    let t = a.new_pair(one, three).unwrap();
+    let mut values: Vec<NodePtr> = vec![t];
+    let mut k = 0;
+    while k < 3 {
+        k += 1;
+        let Some(v) = values.pop() else { break; };
+        spin(if v.is_pair() == (k == 1) { 1 } else { 50 });
+        if k == 1 {
+            match variant {
+                0 => { values.push(three); values.push(one); }
+                1 => { if let clvmr::allocator::SExp::Pair(l, r) = a.sexp(t) { values.push(r); values.push(l); } }
+                2 => { if v.is_pair() { values.push(three); values.push(one); } }
+                3 => { if let clvmr::allocator::SExp::Pair(l, r) = a.sexp(v) { values.push(r); values.push(l); } }
+                _ => { if let clvmr::allocator::SExp::Pair(l, r) = a.sexp(v) { spin(if l == one && r == three {1} else {50}); values.push(three); values.push(one); } }
+            }
+        }
+    }
+    std::mem::forget(a);
+}
+proof! { #[kani::unwind(6)] fn probe_vgd_const() { vgd(0); } }
+proof! { #[kani::unwind(6)] fn probe_vgd_sexp_t() { vgd(1); } }
+proof! { #[kani::unwind(6)] fn probe_vgd_ispair() { vgd(2); } }
+kernel_proof! { #[kani::unwind(6)] fn probe_vgd_nostub_ispair() {
+    let t = NodePtr::NIL;
+    let mut values: Vec<NodePtr> = vec![t];
+    let mut k = 0;
+    while k < 3 {
+        k += 1;
+        let Some(v) = values.pop() else { break; };
+        spin(if v.is_atom() { 1 } else { 50 });
+        if k == 1 { if v.is_atom() { values.push(t); values.push(t); } }
+    }
+    std::mem::forget(values);
+} }
+
+proof! { #[kani::unwind(6)] fn probe_vgd_sexp_v() { vgd(3); } }
+proof! { #[kani::unwind(6)] fn probe_vgd_sexp_v_diag() { vgd(4); } }
+
+fn vge(with_ac: bool, guard_k: bool) {
+    let mut a = Allocator::new();
+    let three = a.new_small_number(3).unwrap();
+    let t = a.new_pair(a.one(), three).unwrap();
+    let mut values: Vec<NodePtr> = vec![t];
+    let mut k = 0;
+    while k < 3 {
+        k += 1;
+        let Some(v) = values.pop() else { break; };
+        if with_ac { spin(values.len() as u32); }
+        spin(if v.is_pair() == (k == 1) { 1 } else { 50 });
+        if (!guard_k || k == 1) && v.is_pair() {
+            if let clvmr::allocator::SExp::Pair(l, r) = a.sexp(v) { values.push(r); values.push(l); }
+        }
+        if with_ac { spin(values.len() as u32); }
+    }
+    std::mem::forget(a);
+}
+proof! { #[kani::unwind(6)] fn probe_vge_ac_noguard() { vge(true, false); } }
+proof! { #[kani::unwind(6)] fn probe_vge_noac_noguard() { vge(false, false); } }
+proof! { #[kani::unwind(6)] fn probe_vge_noac_guard() { vge(false, true); } }
+
+proof! { #[kani::unwind(6)] fn probe_sexp_read_conc() {
+    let mut a = Allocator::new();
+    let three = a.new_small_number(3).unwrap();
+    let one = a.one();
+    let t = a.new_pair(one, three).unwrap();
+    if let clvmr::allocator::SExp::Pair(l, r) = a.sexp(t) { spin(if l == one && r == three { 1 } else { 50 }); }
+    std::mem::forget(a);
+} }
+proof! { #[kani::unwind(6)] fn probe_sexp_read_conc2() {
+    let mut a = Allocator::new();
+    let three = a.new_small_number(3).unwrap();
+    let one = a.one();
+    let t0 = a.new_pair(three, three).unwrap();
+    let t = a.new_pair(one, t0).unwrap();
+    if let clvmr::allocator::SExp::Pair(l, r) = a.sexp(t) { spin(if l == one && r == t0 { 1 } else { 50 }); }
+    std::mem::forget(a);
+} }
+
+fn eq_variant(level: u8) {
+    use crate::ops::*;
+    let mut e = Env::new();
+    let args = e.list(&[A::View(2), A::Small]);
+    if level >= 1 {
+        let flags = any_flags(crate::c02::cost_flags());
+        let b: u64 = kani::any();
+        let unl = clvmr::core_ops::op_eq(&mut e.a, args, u64::MAX, flags);
+        if level >= 2 {
+            let lim = clvmr::core_ops::op_eq(&mut e.a, args, b, flags);
+            if level >= 3 {
+                check_budget_lemma::<12>(&e.a, &unl, &lim, b);
+            }
+            std::mem::forget(lim);
+        } else {
+            assert!(unl.is_ok());
+        }
+        std::mem::forget(unl);
+    }
+    std::mem::forget(e);
+}
+proof! { #[kani::unwind(18)] fn probe_eq_l0() { eq_variant(0); } }
+proof! { #[kani::unwind(18)] fn probe_eq_l1() { eq_variant(1); } }
+proof! { #[kani::unwind(18)] fn probe_eq_l2() { eq_variant(2); } }
+proof! { #[kani::unwind(18)] fn probe_eq_l3() { eq_variant(3); } }
+
+fn cmp_variant(op: crate::ops::OpFn, specs: &[crate::ops::A], mode: u8) {
+    use crate::ops::*;
+    use clvmr::reduction::Reduction;
+    let mut e = Env::new();
+    let args = e.list(specs);
+    let flags = any_flags(crate::c02::cost_flags());
+    let b: u64 = kani::any();
+    let unl = op(&mut e.a, args, u64::MAX, flags);
+    let lim = op(&mut e.a, args, b, flags);
+    if let (Ok(Reduction(c1, v1)), Ok(Reduction(c2, v2))) = (&unl, &lim) {
+        assert!(c1 == c2);
+        match mode {
+            0 => assert!(*v1 == *v2),
+            1 => { assert!(v1.is_atom() == v2.is_atom()); if v1.is_atom() && v2.is_atom() { assert!(e.a.atom_len(*v1) == e.a.atom_len(*v2)); assert!(e.a.small_number(*v1) == e.a.small_number(*v2)); } }
+            2 => { assert!(v1.is_atom() == v2.is_atom()); if v1.is_atom() && v2.is_atom() { assert!(e.a.atom_eq(*v1, *v2)); } }
+            _ => assert!(tree_eq::<12>(&e.a, *v1, *v2, 2)),
+        }
+    }
+    std::mem::forget(unl); std::mem::forget(lim); std::mem::forget(e);
+}
+proof! { #[kani::unwind(18)] fn probe_cmp_eq_m0() { cmp_variant(clvmr::core_ops::op_eq, &[crate::ops::A::View(2), crate::ops::A::Small], 0); } }
+proof! { #[kani::unwind(18)] fn probe_cmp_eq_m1() { cmp_variant(clvmr::core_ops::op_eq, &[crate::ops::A::View(2), crate::ops::A::Small], 1); } }
+proof! { #[kani::unwind(18)] fn probe_cmp_eq_m2() { cmp_variant(clvmr::core_ops::op_eq, &[crate::ops::A::View(2), crate::ops::A::Small], 2); } }
+proof! { #[kani::unwind(18)] fn probe_cmp_add_m0() { cmp_variant(clvmr::more_ops::op_add, &[crate::ops::A::Small, crate::ops::A::Small], 0); } }
+proof! { #[kani::unwind(18)] fn probe_cmp_add_m1() { cmp_variant(clvmr::more_ops::op_add, &[crate::ops::A::Small, crate::ops::A::Small], 1); } }
+proof! { #[kani::unwind(18)] fn probe_cmp_add_m2() { cmp_variant(clvmr::more_ops::op_add, &[crate::ops::A::Small, crate::ops::A::Small], 2); } }
+
+kernel_proof! { #[kani::unwind(10)] fn probe_bigint_add() {
+    use clvmr::number::Number;
+    let x: u32 = kani::any();
+    let y: i32 = kani::any();
+    let mut n = Number::from(x);
+    n += Number::from(y);
+    let expect = x as i64 + y as i64;
+    assert!(n == Number::from(expect));
+    std::mem::forget(n);
+} }
+proof! { #[kani::unwind(18)] fn probe_add_slow_single() {
+    use crate::ops::*;
+    let mut e = Env::new();
+    let args = e.list(&[A::View(2), A::Small]);
+    let r = clvmr::more_ops::op_add(&mut e.a, args, u64::MAX, ClvmFlags::empty());
+    assert!(r.is_ok());
+    std::mem::forget(r); std::mem::forget(e);
+} }
+proof! { #[kani::unwind(18)] fn probe_number_from_u8() {
+    use crate::ops::*;
+    let mut e = Env::new();
+    let v = e.arg(A::View(2));
+    let n = e.a.number(v);
+    let hi = e.bytes[0] as i8 as i64;
+    assert!(n == clvmr::number::Number::from(hi * 256 + e.bytes[1] as i64));
+    std::mem::forget(n); std::mem::forget(e);
+} }
